@@ -26,6 +26,8 @@ def sel_index(kind, n):
         return slice(None, None, -1)
     if kind == "mask":
         return np.array([j % 2 == 1 for j in range(n)], dtype=bool)
+    if kind == "lmask":
+        return [j % 2 == 1 for j in range(n)]          # the same mask as a plain Python list of bools
     if kind == "list":
         return [-1, 0, 0] if n else []
     if kind == "empty":
